@@ -26,8 +26,8 @@ ASSUMPTIONS = [
 ]
 EXHAUSTIVE = {"quick": True, "thorough": True}
 SHARDS = {"quick": 12, "thorough": 14}
-FLOORS = {"quick": {"calls_with_falsy_or_mutable_defaults": 10000, "contract_evaluations_in_repo_tests": 200, "accepted_calls": 20000, "ignore_lists_checked": 20000, "method_calls": 8000},
-          "thorough": {"contract_evaluations_in_repo_tests": 200, "accepted_calls": 100000, "ignore_lists_checked": 100000, "method_calls": 40000}}
+FLOORS = {"quick": {"calls_with_falsy_or_mutable_defaults": 10000, "contract_evaluations_in_repo_tests": 200, "accepted_calls": 20000, "ignore_lists_checked": 20000, "method_calls": 8000, "calls_after_a_change_of_defaults": 5000, "calls_of_methods_without_an_explicit_self": 300},
+          "thorough": {"contract_evaluations_in_repo_tests": 200, "accepted_calls": 100000, "ignore_lists_checked": 100000, "method_calls": 40000, "calls_after_a_change_of_defaults": 20000, "calls_of_methods_without_an_explicit_self": 1000}}
 
 
 def cases(tier, seed):
@@ -40,6 +40,9 @@ def cases(tier, seed):
             chunk.append(dict(sig=[list(s) for s in sig], method=method, dstyle=0))
             if any(x[2] for x in sig):
                 chunk.append(dict(sig=[list(s) for s in sig], method=method, dstyle=1))
+            if method and sig and sig[0][0] == "V":
+                # 'def f(*args, ...)' in a class: the instance arrives as the first surplus positional
+                chunk.append(dict(sig=[list(s) for s in sig], method=True, dstyle=0, implicit_self=True))
             if method and not any(x[0] == "P" for x in sig):
                 # 'def f(self, /, ...)': self positional-only although the method has no positional-only parameter of its own
                 chunk.append(dict(sig=[list(s) for s in sig], method=True, dstyle=0, self_slash=True))
@@ -52,8 +55,8 @@ def cases(tier, seed):
     yield dict(contract=True)
 
 
-def build(sig, method, dstyle=0, self_slash=False):
-    src = gen_sig.source(sig, "f", method=method, dstyle=dstyle, body=gen_sig.LOCALS_BODY, self_slash=self_slash)
+def build(sig, method, dstyle=0, self_slash=False, implicit_self=False):
+    src = gen_sig.source(sig, "f", method=method, dstyle=dstyle, body=gen_sig.LOCALS_BODY, self_slash=self_slash, implicit_self=implicit_self)
     ns = {}
     if method:
         exec("class C:\n" + src, ns)
@@ -96,16 +99,17 @@ def run_case(case, ctx):
 def run_one(case, ctx, filter_args):
     sig = tuple(tuple(s) for s in case["sig"])
     method = case["method"]
-    func, obj = build(sig, method, case.get("dstyle", 0), case.get("self_slash", False))
+    implicit = case.get("implicit_self", False)
+    func, obj = build(sig, method, case.get("dstyle", 0), case.get("self_slash", False), implicit)
     names = [s[1] for s in sig if s[0] in "PKO"]
     keys = names + (["*"] if any(s[0] == "V" for s in sig) else []) + \
         (["**"] if any(s[0] == "W" for s in sig) else [])
-    if method:
+    if method and not implicit:
         keys = ["self"] + keys
     ign_lists = [()] + [c for r in (1, 2) for c in itertools.combinations(keys, r)]
     ign_i = 0
     reported = set()
-    sstr = ("method " if method else "") + ("(self, /) " if case.get("self_slash") else "") + gen_sig.sig_str(sig)
+    sstr = ("method " if method else "") + ("(self, /) " if case.get("self_slash") else "") + ("(no explicit self) " if implicit else "") + gen_sig.sig_str(sig)
     for npos, kwnames in gen_sig.call_shapes(sig, method=method):
         args, kwargs = gen_sig.values_for(npos, kwnames)
         if method and npos and (npos + len(kwnames)) % 3 == 0:
@@ -117,8 +121,10 @@ def run_one(case, ctx, filter_args):
         if exp is None:
             ctx.count("rejected_by_python")
             continue
-        if method:
+        if method and not implicit:
             exp = dict(self=obj, **exp)
+        if implicit:
+            ctx.count("calls_of_methods_without_an_explicit_self")
         ctx.count("accepted_calls")
         if method:
             ctx.count("method_calls")
@@ -156,5 +162,40 @@ def run_one(case, ctx, filter_args):
                 f"expected {want!r}, got {err or repr(got)}",
                 dict(signature=sstr, args=args, kwargs=kwargs, ignore=list(ign),
                      expected=repr(want), got=err or repr(got)))
+    # the same function object again after its defaults were changed: whatever filter_args remembers about a function
+    # must not outlive a change of its signature
+    f0 = func.__func__ if method else func
+    changed = False
+    if f0.__defaults__:
+        f0.__defaults__ = tuple(("dflt2", i) for i in range(len(f0.__defaults__)))
+        changed = True
+    if f0.__kwdefaults__:
+        f0.__kwdefaults__ = {k: ("kwdflt2", k) for k in f0.__kwdefaults__}
+        changed = True
+    if changed:
+        n = 0
+        for npos, kwnames in gen_sig.call_shapes(sig, method=method):
+            args, kwargs = gen_sig.values_for(npos, kwnames)
+            exp = gen_sig.python_binding(func, args, kwargs)
+            if exp is None:
+                continue
+            if method and not implicit:
+                exp = dict(self=obj, **exp)
+            ctx.evaluated()
+            ctx.count("calls_after_a_change_of_defaults")
+            try:
+                with warnings.catch_warnings():
+                    warnings.simplefilter("ignore")
+                    got = filter_args(func, [], args, dict(kwargs))
+                err = None
+            except Exception as e:  # noqa
+                got, err = None, f"{type(e).__name__}: {str(e)[:200]}"
+            if err is not None or got != exp:
+                ctx.violation("stale-signature-after-defaults-changed", f"filter_args({sstr}) after __defaults__ / __kwdefaults__ were reassigned, called with args={args} "
+                                                                        f"kwargs={kwargs}: expected {exp!r}, got {err or repr(got)}", dict(signature=sstr, args=args, kwargs=kwargs))
+                break
+            n += 1
+            if n >= 12:
+                break
     if len(ctx.samples) < 3:
         ctx.sample(dict(signature=sstr, shapes=len(list(gen_sig.call_shapes(sig)))))
